@@ -21,6 +21,8 @@ type Letter struct {
 	Groups []Group `json:"groups,omitempty"`
 	Ramp   *Ramp   `json:"ramp,omitempty"`
 	Big    *Big    `json:"big,omitempty"`
+	// Op is a producer API call that is not an encode: "resetstats" (GetAndResetStats), "showstats"
+	Op string `json:"op,omitempty"`
 }
 type Group struct {
 	R      int     `json:"r"`
@@ -47,6 +49,9 @@ type Ramp struct {
 }
 
 func (l Letter) String() string {
+	if l.Op != "" {
+		return "op:" + l.Op
+	}
 	if l.Name != "" {
 		return l.Name
 	}
@@ -69,7 +74,7 @@ func (l Letter) String() string {
 
 // ---- resources and scopes ---------------------------------------------------
 
-const NumRes = 9
+const NumRes = 10
 
 func fillRes(i int, r pcommon.Resource) (url string) {
 	a := r.Attributes()
@@ -94,11 +99,13 @@ func fillRes(i int, r pcommon.Resource) (url string) {
 		a.PutBool("a", true)
 	case 8:
 		a.PutStr("a", "true")
+	case 9: // only attributes that the encoder drops
+		fillAttrs(10, a)
 	}
 	return ""
 }
 
-const NumScope = 8
+const NumScope = 9
 
 func fillScope(i int, s pcommon.InstrumentationScope) (url string) {
 	switch i {
@@ -123,13 +130,16 @@ func fillScope(i int, s pcommon.InstrumentationScope) (url string) {
 		s.SetName("n")
 		s.SetVersion("v")
 		s.SetDroppedAttributesCount(2)
+	case 8:
+		s.SetName("n")
+		fillAttrs(10, s.Attributes())
 	}
 	return ""
 }
 
 // ---- attribute archetypes shared by all signals ------------------------------
 
-const NumAttrs = 10
+const NumAttrs = 11
 
 func fillAttrs(i int, m pcommon.Map) {
 	switch i {
@@ -180,6 +190,9 @@ func fillAttrs(i int, m pcommon.Map) {
 			cur = cur.PutEmptyMap("n")
 		}
 		cur.PutStr("leaf", "x")
+	case 10: // nothing survives: empty key, unset value
+		m.PutStr("", "empty key is dropped")
+		m.PutEmpty("unset")
 	case 9: // boundary numbers and unicode
 		m.PutInt("max", math.MaxInt64)
 		m.PutInt("min", math.MinInt64)
@@ -213,7 +226,7 @@ func sid(b byte) pcommon.SpanID {
 
 // ---- spans -------------------------------------------------------------------
 
-const NumSpan = 27
+const NumSpan = 28
 
 func fillSpan(i int, sp ptrace.Span) {
 	if i >= WildBase {
@@ -335,6 +348,10 @@ func fillSpan(i int, sp ptrace.Span) {
 			fillAttrs(7, e.Attributes())
 		}
 		fillAttrs(7, sp.Attributes())
+	case 27: // attribute maps (span, event, link) whose entries are all dropped by the encoder
+		fillAttrs(10, sp.Attributes())
+		fillAttrs(10, sp.Events().AppendEmpty().Attributes())
+		fillAttrs(10, sp.Links().AppendEmpty().Attributes())
 	case 26: // uniform groups: every event has the same name and attribute, every link the same trace id and attribute
 		for k := 0; k < 2; k++ {
 			e := sp.Events().AppendEmpty()
@@ -443,7 +460,7 @@ func rampTraces(td ptrace.Traces, r *Ramp) {
 
 // ---- logs ----------------------------------------------------------------------
 
-const NumLog = 24
+const NumLog = 25
 
 func fillLog(i int, lr plog.LogRecord) {
 	if i >= WildBase {
@@ -518,6 +535,8 @@ func fillLog(i int, lr plog.LogRecord) {
 		lr.Body().SetStr("1")
 	case 22: // single attribute, equal across records
 		fillAttrs(7, lr.Attributes())
+	case 24:
+		fillAttrs(10, lr.Attributes())
 	case 23: // negative numbers
 		lr.Body().SetDouble(-1.5)
 		lr.Attributes().PutInt("n", -7)
@@ -592,7 +611,7 @@ func (l Letter) BuildLogs() plog.Logs {
 
 // ---- metrics ---------------------------------------------------------------------
 
-const NumMetric = 45
+const NumMetric = 46
 
 func exemplar(e pmetric.Exemplar, kind int) {
 	switch kind {
@@ -831,6 +850,13 @@ func fillMetric(i int, m pmetric.Metric) {
 			dp.SetIntValue(int64(k))
 			fillAttrs(7, dp.Attributes())
 		}
+	case 45: // point and exemplar attribute maps whose entries are all dropped
+		dp := m.SetEmptyGauge().DataPoints().AppendEmpty()
+		dp.SetIntValue(1)
+		fillAttrs(10, dp.Attributes())
+		e := dp.Exemplars().AppendEmpty()
+		e.SetIntValue(2)
+		fillAttrs(10, e.FilteredAttributes())
 	case 42: // negative values before any positive one: summary sum and quantile value
 		dp := m.SetEmptySummary().DataPoints().AppendEmpty()
 		dp.SetCount(1)
